@@ -60,7 +60,9 @@ impl Drop for Scratch {
     }
 }
 
+pub static LAST_PANIC_ANY: std::sync::Mutex<Option<String>> = std::sync::Mutex::new(None);
 thread_local! {
+    static IN_CATCH: std::cell::Cell<bool> = const { std::cell::Cell::new(false) };
     static LAST_PANIC: std::cell::RefCell<Option<String>> = const { std::cell::RefCell::new(None) };
 }
 
@@ -82,6 +84,12 @@ pub fn install_quiet_panic_hook() {
             .map(|l| format!("{}:{}", l.file(), l.line()))
             .unwrap_or_default();
         LAST_PANIC.with(|p| *p.borrow_mut() = Some(format!("{msg} @ {loc}")));
+        if !IN_CATCH.with(|c| c.get()) {
+            // a panic of the harness itself, not of the code under test
+            if let Ok(mut g) = LAST_PANIC_ANY.lock() {
+                *g = Some(format!("{msg} @ {loc}"));
+            }
+        }
         if loud {
             default(info);
         }
@@ -90,7 +98,10 @@ pub fn install_quiet_panic_hook() {
 
 pub fn catch<T>(f: impl FnOnce() -> T) -> Result<T, String> {
     LAST_PANIC.with(|p| *p.borrow_mut() = None);
-    match std::panic::catch_unwind(std::panic::AssertUnwindSafe(f)) {
+    let was = IN_CATCH.with(|c| c.replace(true));
+    let r = std::panic::catch_unwind(std::panic::AssertUnwindSafe(f));
+    IN_CATCH.with(|c| c.set(was));
+    match r {
         Ok(v) => Ok(v),
         Err(_) => Err(LAST_PANIC
             .with(|p| p.borrow_mut().take())
